@@ -272,6 +272,14 @@ Proof.
   specialize (Hf a w' eq_refl). destruct (f a w') as [b w2|e w2]; [destruct Hf; split; auto|]; eapply Rtrans; eauto.
 Qed.
 
+Lemma frel_bind_assoc (R : world -> world -> Prop) {A B C} (c : C -> Prop)
+      (m : world -> res A) (g : A -> world -> res B) (f : B -> world -> res C) w :
+  frel R c (bind m (fun x => bind (g x) f)) w -> frel R c (bind (bind m g) f) w.
+Proof. unfold frel. apply post_bind_assoc. Qed.
+Lemma frel_bind_ret (R : world -> world -> Prop) {A B} (c : B -> Prop) (a : A) (f : A -> world -> res B) w :
+  frel R c (f a) w -> frel R c (bind (ret a) f) w.
+Proof. unfold frel, post, bind, ret. auto. Qed.
+
 Ltac fstep :=
   match goal with
   | |- frel L _ (ret _) _ => apply frel_ret; [try discriminate | apply L_refl]
@@ -401,6 +409,8 @@ Ltac fstep2 :=
   match goal with
   | |- frel L _ (ret _) _ => apply frel_ret; [try discriminate; try reflexivity | apply L_refl]
   | |- frel L _ (bind get_sk _) _ => apply (frel_bind L L_trans); [lprim | let H := fresh "Heq" in intros ? ? H; unfold_prims_in H; injection H as <- <-]
+  | |- frel L _ (bind (bind _ _) _) _ => apply frel_bind_assoc
+  | |- frel L _ (bind (ret _) _) _ => apply frel_bind_ret; cbn [negb]
   | |- frel L _ (bind _ _) _ => apply (frel_bind L L_trans); [ first [llem | apply receive_pdu_L | lprim] | intros ? ? _ ]
   | |- frel L _ (if ?c then _ else _) _ => destruct c eqn:?
   end.
@@ -532,18 +542,8 @@ Proof.
     apply Hcont; [unfold cr_world; rewrite Erq; reflexivity|discriminate].
   - destruct (negb (session_id (sk w1) =? get16 p 2)) eqn:Esid.
     + (* foreign session *)
-      unfold bind at 2.
-      assert (Hf : frel L (fun r => r <> 0)
-                     (mdo ok <- (mdo _ <- send_error_from_host [] c_CORRUPT_DATA txt_wrong_session;
-                                 mdo _ <- change_state c_RTR_ERROR_FATAL; ret false);
-                      if negb ok then ret (-1) else
-                        mdo r <- receive_and_store fuel;
-                        if r =? 0 then mdo _ <- modify_sk (fun s => upd_req s false); mdo t <- get_now;
-                                       mdo _ <- modify_sk (fun s => upd_last s t); ret 0
-                        else ret (-1)) w1).
-      { unfold frel. apply post_bind_assoc. apply post_bind_assoc'. admit. }
-      admit.
+      apply Hfail. repeat fstep2.
     + apply negb_false_iff, Z.eqb_eq in Esid.
       unfold bind at 1. unfold ret at 1. cbn [negb].
       apply Hcont; [unfold cr_world; rewrite Erq; reflexivity|auto].
-Admitted.
+Qed.
